@@ -33,7 +33,9 @@ def attempts(tier):
     """(kind, ...) tuples"""
     out = []
     pws = {'testuser': [b'testpass', b'', b'testpas', b'testpass ', b'TESTPASS', b'otherpass', b'x' * 30000, b'test\x00pass',
-                        'tëstpass'.encode(), b'*'],
+                        'tëstpass'.encode(), b'*',
+                        # the right password with bytes around it that are not valid UTF-8: a different byte string
+                        b'test\xffpass', b'\xc3testpass', b'testpass\xff', b'\xfftestpass\xfe', b't\x80estpass'],
            'other': [b'otherpass', b'testpass'], 'admin': [b'adminpass', b'wrong'],
            'nobody': [b'', b'testpass', b'x'], '': [b'', b'testpass'], 'TESTUSER': [b'testpass'], 'testuser ': [b'testpass'],
            'testKuser': [b'testpass'], 'x' * 70000: [b'testpass']}
